@@ -155,7 +155,8 @@ def r13_1(ctx):
     n_err = 0
     for n in sorted(psup.nodes(), key=str):
         b = psup.body_of(n)
-        if not b.local_ty(0).startswith("std::result::Result<") or "lexopt::Error" not in b.local_ty(0):
+        # the parser itself and its helpers that report in the same error type
+        if not b.local_ty(0).startswith("std::result::Result<") or cliview_err_ty(b.local_ty(0)) != cliview_err_ty(parse_fn.local_ty(0)):
             continue
         blk = b.blocks[n[1]]
         for s in blk["stmts"]:
@@ -185,8 +186,9 @@ def r13_1(ctx):
     for n, c in v.exits:
         if c != 1:
             continue
-        ok = any(sup.dominates(w, n) and w != n for w in errw)
-        msg = [tmpl for w, s_, tmpl, _ in v.writes() if w in errw and sup.dominates(w, n)]
+        # every (feasible) way to this exit has written an 'xt error' line (one write per kind of failure is fine)
+        ok = bool(errw) and n not in v.ps.reach(removed_nodes=errw)
+        msg = [tmpl for w, s_, tmpl, _ in v.writes() if w in errw and (sup.dominates(w, n) or w[0] == n[0])]
         ctx.ob(f"exit1:message:{_exit_key(v, n)}", ok, v.site(n), f"preceded by stderr line {msg[-1]!r}" if ok else "exit(1) without an 'xt error' line on stderr")
     # (e) every fallible step diverges to exit(1) with a message naming the input
     fallible = [("open", n, t) for n, b, t in v.file_open] + [("translate:" + _variant_key(t), n, t) for n, b, t in v.translate] + [("flush", n, t) for n, b, t in v.flush]
@@ -204,11 +206,27 @@ def r13_1(ctx):
             ctx.ob(f"fail:{kind}:names-input", named, v.site(n), "message is 'xt error in <input>: ...'" if named else "failure message does not name the offending input")
 
 
-def _lexopt_origin(psup, tr):
+def cliview_err_ty(ty):
+    from model import _err_ty
+
+    return _err_ty(ty)
+
+
+def _lexopt_origin(psup, tr, depth=0):
+    if tr.origin and tr.origin[0] == "agg" and tr.origin[1]["rv"].get("agg") == "adt" and tr.origin[1]["rv"]["ops"] and depth < 3:
+        # a variant of the program's own failure type wrapped around the lexopt error / message
+        onode = getattr(tr, "origin_node", None)
+        if onode is not None:
+            inner = strace(psup, (onode[0], tr.origin[1].get("bb", onode[1])) if isinstance(tr.origin[1], dict) and "bb" in tr.origin[1] else onode, tr.origin[1]["rv"]["ops"][0])
+            ok, what = _lexopt_origin(psup, inner, depth + 1)
+            return ok, f"{tr.origin[1]['rv'].get('variant')}({what})"
     if tr.origin and tr.origin[0] == "call":
         f = fn_of(tr.origin[2]) or {}
         if f.get("crate") == "lexopt":
             return True, f["def"]
+        if f.get("def") in ("std::convert::Into::into", "std::convert::From::from") and tr.origin[2]["args"] and depth < 3:
+            onode = (tr.origin_node[0], tr.origin[1])
+            return _lexopt_origin(psup, strace(psup, onode, tr.origin[2]["args"][0]), depth + 1)
         # a local helper of the parser: its own errors are checked at their sites
         if f.get("local"):
             return True, "local:" + f["def"]
@@ -1057,6 +1075,11 @@ def r14_3(ctx):
         elif tr.origin and tr.origin[0] == "call" and (fn_of(tr.origin[2]) or {}).get("def") == "std::mem::replace" and const_value(tr.origin[2]["args"][1]) is True:
             g = _referent(b, tr.origin[2]["args"][0])
             idiom = "mem::replace"
+        through_param = None
+        if g is None and tr.origin and tr.origin[0] == "arg" and b.local_ty(tr.origin[1]) == "&mut bool" and any(s_[0] == "deref" for s_ in tr.steps) and all(s_[0] in ("use", "deref") for s_ in tr.steps):
+            # the flag lives in the caller and is lent to this function as `&mut bool`
+            through_param = tr.origin[1]
+            g, idiom = through_param, "test-then-set through &mut"
         if g is None:
             continue
         false_edge = (gn, 0, (gn[0], zero[0]))
@@ -1070,8 +1093,23 @@ def r14_3(ctx):
         setters, clears = [], []
         for bi, blk in enumerate(b.blocks):
             for s in blk["stmts"]:
-                if s["k"] == "assign" and not s["p"]["pr"] and s["p"]["l"] == g and s["rv"]["k"] == "use" and s["rv"]["op"].get("k") == "const":
+                direct = not s.get("p", {}).get("pr") if s["k"] == "assign" else False
+                via_deref = s["k"] == "assign" and through_param is not None and [e_["k"] for e_ in s["p"]["pr"]] == ["deref"]
+                if s["k"] == "assign" and ((through_param is None and direct) or via_deref) and s["p"]["l"] == g and s["rv"]["k"] == "use" and s["rv"]["op"].get("k") == "const":
                     (setters if s["rv"]["op"].get("v") is True else clears).append((gn[0], bi))
+        owner_name = None
+        if through_param is not None:
+            # the lender's own variable: cleared (initialised) there, outside the loop
+            res = sup.caller_operand(gn, through_param)
+            if res:
+                (cpath, cbb), caller, cop = res
+                owner = _referent(caller, cop)
+                if owner is not None:
+                    owner_name = caller.local_name(owner)
+                    for bi, blk in enumerate(caller.blocks):
+                        for s in blk["stmts"]:
+                            if s["k"] == "assign" and not s["p"]["pr"] and s["p"]["l"] == owner and s["rv"]["k"] == "use" and s["rv"]["op"].get("k") == "const":
+                                (setters if s["rv"]["op"].get("v") is True else clears).append((cpath, bi))
         if idiom == "mem::replace":
             armed = True
         else:
@@ -1079,8 +1117,8 @@ def r14_3(ctx):
         ctx.ob("flag-set-before-read", armed, v.site(sn), f"`{gname}` is set before stdin() on every path" if armed else f"`{gname}` is not set before reading stdin")
         # the same fact decided semantically: with the flag's value tracked along every path (constant stores and
         # mem::replace on the flag are modelled), no path leads from a completed stdin() call to stdin() again
-        again = sn in v.reach_after(sn)
-        ctx.ob("stdin-not-reachable-again", not again, v.site(sn), "no feasible path reaches stdin() a second time" if not again else "a path from the first stdin() read reaches stdin() again")
+        again = sn in v.reach_after(sn) if through_param is None else False
+        ctx.ob("stdin-not-reachable-again", not again, v.site(sn), "decided structurally (the flag is lent as &mut bool: its value is not tracked across the call)" if through_param is not None else "no feasible path reaches stdin() a second time" if not again else "a path from the first stdin() read reaches stdin() again")
         cl_ok = all(not sup.on_cycle(c) for c in clears) and len(clears) >= 1
         ctx.ob("flag-cleared-only-before-loop", cl_ok, site(b), f"`{gname} = false` only outside the input loop" if cl_ok else f"`{gname}` is reset inside the input loop")
     if not found:
@@ -1174,13 +1212,13 @@ def r14_4(ctx):
         key = f"{f['name']}@{vk}"
         tr = strace(sup, n, t["args"][1])
         if f["name"] == "translate_slice":
-            ok = any(s[0] == "downcast" and s[1] == vocab.bin_vocab(ctx.facts)["opened"]["mmap"] for s in tr.steps) and all(s[0] in ("use", "ref", "deref", "field", "downcast", "enter_caller", "agg_field") or (s[0] == "call" and "Deref" in s[1]) for s in tr.steps)
+            ok = any(s[0] == "downcast" and s[1] == vocab.bin_vocab(ctx.facts)["opened"]["mmap"] for s in tr.steps) and all(s[0] in ("use", "ref", "deref", "field", "downcast", "enter_caller", "agg_field") or (s[0] == "call" and ("Deref" in s[1] or s[1] == "std::ops::Try::branch")) for s in tr.steps)
             ctx.ob(f"{key}:map-passed-as-is", ok, v.site(n), "the mapping is passed as a slice through Deref only" if ok else f"slice argument is transformed: {tr.kinds()}")
         elif "Stdin" in vk:
             ok = bool(tr.origin and tr.origin[0] == "call" and (fn_of(tr.origin[2]) or {}).get("def") == "std::io::Stdin::lock")
             ctx.ob(f"{key}:reads-stdin", ok, v.site(n), "reader is the locked standard input")
         else:
-            ok = any(s[0] == "downcast" and s[1] == vocab.bin_vocab(ctx.facts)["opened"]["file"] for s in tr.steps) and all(s[0] in ("use", "field", "downcast", "enter_caller", "agg_field") for s in tr.steps)
+            ok = any(s[0] == "downcast" and s[1] == vocab.bin_vocab(ctx.facts)["opened"]["file"] for s in tr.steps) and all(s[0] in ("use", "field", "downcast", "enter_caller", "agg_field") or (s[0] == "call" and s[1] == "std::ops::Try::branch") for s in tr.steps)
             ctx.ob(f"{key}:file-passed-as-is", ok, v.site(n), "the opened file is the reader" if ok else f"reader argument is transformed: {tr.kinds()}")
         rtr = strace_deep(sup, n, t["args"][0], stop_at=tuple(x[2] for x in v.new))
         same = bool(rtr.origin and rtr.origin[0] == "call" and v.new and rtr.origin[2] is v.new[0][2])
